@@ -7,6 +7,7 @@ import (
 	"fmt"
 	"io"
 	"os"
+	"path/filepath"
 	"strings"
 
 	lua "github.com/yuin/gopher-lua"
@@ -19,13 +20,15 @@ const workers = 8
 
 // In is the replayable input of one case.
 type In struct {
-	Kind   string `json:"kind"`              // valid | bytes | adv | file
-	Prog   *Prog  `json:"prog,omitempty"`    // valid: lexemes and separators
-	RefSrc HB     `json:"ref_src,omitempty"` // valid: the first layout of the same program (bytecode reference)
-	Src    HB     `json:"src,omitempty"`     // bytes
-	Origin string `json:"origin,omitempty"`  // bytes: which generator
-	Shape  string `json:"shape,omitempty"`   // adv
-	N      int    `json:"n,omitempty"`       // adv
+	Kind   string   `json:"kind"`              // valid | bytes | adv | file
+	Prog   *Prog    `json:"prog,omitempty"`    // valid: lexemes and separators
+	RefSrc HB       `json:"ref_src,omitempty"` // valid: the first layout of the same program (bytecode reference)
+	Src    HB       `json:"src,omitempty"`     // bytes
+	Origin string   `json:"origin,omitempty"`  // bytes: which generator
+	Shape  string   `json:"shape,omitempty"`   // adv
+	N      int      `json:"n,omitempty"`       // adv
+	A      []Lexeme `json:"a,omitempty"`       // prog: canonical lexemes
+	B      []Lexeme `json:"b,omitempty"`       // prog: with optional ";" and redundant parentheses
 }
 
 func coqOToks(ts []OTok) string {
@@ -200,6 +203,8 @@ func replay(w *lib.Writer, path string) {
 			bad = "LoadFile ends in " + loadNames[rs[0].Load] + " but LoadString of the text without its '#' line ends in " + loadNames[rs[1].Load]
 		}
 		addFileCase(w, in, rs[0], bad)
+	case "prog":
+		progCheck(w, [][]Lexeme{in.A}, [][]Lexeme{in.B}, lib.NewRand(1), filepath.Dir(path))
 	case "parse":
 		rs := runAll([]Request{{ID: 0, Src: in.Src, WantParse: true, LimitMs: 3000}}, 1)
 		id := w.NextID()
